@@ -296,17 +296,10 @@ func checkOwned(what func() string, again func() []byte, e []byte, want int32) *
 	if l1 != want || c1 != 0 || c2 != 0 {
 		return vk.Failf("new-repeated", "%s = %s, the same call again = %s: Len %d, want %d; Cmp of the two %d/%d, want 0", what(), hexShort(snap), hexShort(e1), l1, want, c1, c2)
 	}
-	for i := range e1 {
-		e1[i] = ^e1[i]
-	}
-	vk.ScribbleBytes(e1)
-	// on a failure the overwritten bytes are put back: the cases that follow (the shrink candidates among them)
-	// then start from what the library had before, and fail for their own reasons only
-	undo := func() {
-		for i := range e1 {
-			e1[i] = ^e1[i]
-		}
-	}
+	// (the second result is NOT overwritten: that two equal calls may hand out the same never-written encoding - a
+	// shared constant for the empty bit string, say - is not excluded by the statement; what is checked is that the
+	// LIBRARY does not change an encoding it handed out when it is called again)
+	undo := func() {}
 	if !bytes.Equal(e, snap) {
 		defer undo()
 		return vk.Failf("new-result-shared", "%s returned %s; the caller then overwrote the encoding that a second, identical call had returned (every byte complemented, spare capacity filled) and the first one now reads %s: two results of New share memory", what(), hexShort(snap), hexShort(e))
